@@ -28,6 +28,7 @@ def check(ctx):
     for cls in ("MPSBackendImpl", "NoisyMPSBackendImpl", "DMRGBackendImpl"):
         perm.check_impl(ctx, K + cls, {"drive", "matrix", "state", "permfield"})
     step.step_mps(ctx)
+    step.hamiltonian_refresh(ctx)
     step.mps_initial_state(ctx)
     tdvp.tdvp_moves(ctx)
     tdvp.corner_case(ctx)
